@@ -16,6 +16,19 @@ type cop struct {
 	k   string
 	del bool
 	v   byte
+	n   int // value length (0 = 1); every byte is v
+}
+
+func (o cop) value() []byte {
+	n := o.n
+	if n == 0 {
+		n = 1
+	}
+	b := make([]byte, n)
+	for i := range b {
+		b[i] = o.v
+	}
+	return b
 }
 
 // cworkload returns the transactions of workload W.  Values are unique per transaction.
@@ -27,6 +40,19 @@ func cworkload(w int) [][]cop {
 			{{k: "b", v: 2}},
 			{{k: "c", v: 3}},
 			{{k: "a", v: 4}, {k: "b", v: 5}, {k: "c", v: 6}},
+		}
+	case 6: // a multi-key transaction with one value just below 64 KiB (its wal record is larger)
+		return [][]cop{
+			{{k: "a", v: 1}},
+			{{k: "a", v: 2}, {k: "b", v: 3, n: 65500}, {k: "c", v: 4}},
+			{{k: "c", v: 5}},
+		}
+	case 5: // as 4, but the active memtable holds a two-key transaction of which only one key
+		// has an older version in the queued memtable
+		return [][]cop{
+			{{k: "a", v: 1}},
+			{{k: "b", v: 2}},
+			{{k: "a", v: 3}, {k: "c", v: 4}},
 		}
 	case 4: // short: one rotation, then a newer version of its key in the active memtable
 		return [][]cop{
@@ -66,7 +92,7 @@ func cworkload(w int) [][]cop {
 
 func ckeys(w int) []string {
 	switch w {
-	case 1, 3:
+	case 1, 3, 5, 6:
 		return []string{"a", "b", "c"}
 	case 2:
 		return []string{"a", "a@", "b"}
@@ -102,7 +128,7 @@ func VH_C03_P1() {
 				if o.del {
 					_ = txn.Delete(o.k)
 				} else {
-					_ = txn.Set(o.k, []byte{o.v})
+					_ = txn.Set(o.k, o.value())
 				}
 			}
 			return nil
@@ -135,18 +161,32 @@ func VH_C03_P1() {
 }
 
 // cstate applies transactions 0..upto to an empty state.
+// cmatch: the read value is the one written by o (length and content).
+func cmatch(g []byte, v byte, n int) bool {
+	if n == 0 {
+		n = 1
+	}
+	return len(g) == n && g[0] == v && g[len(g)-1] == v
+}
+
 func cstate(txns [][]cop, upto int) (map[string]byte, map[string]bool) {
-	val, live := map[string]byte{}, map[string]bool{}
+	val, live, _ := cstateN(txns, upto)
+	return val, live
+}
+
+// cstateN also returns the length of each live value.
+func cstateN(txns [][]cop, upto int) (map[string]byte, map[string]bool, map[string]int) {
+	val, live, ln := map[string]byte{}, map[string]bool{}, map[string]int{}
 	for i := 0; i <= upto && i < len(txns); i++ {
 		for _, o := range txns[i] {
 			if o.del {
 				live[o.k] = false
 			} else {
-				live[o.k], val[o.k] = true, o.v
+				live[o.k], val[o.k], ln[o.k] = true, o.v, o.n
 			}
 		}
 	}
-	return val, live
+	return val, live, ln
 }
 
 // VH_C03_P2: recovery in a fresh process on whatever the crash left.
@@ -161,12 +201,13 @@ func VH_C03_P2() {
 	db, err := Open(vf.Dir(), cconfig()) // a panic here is reported by the engine / the test
 	vf.Assert("C03.recover.open", err == nil)
 
-	val, live := cstate(txns, acked)
+	val, live, vlen := cstateN(txns, acked)
 	var fval map[string]byte
 	var flive map[string]bool
+	var flen map[string]int
 	var fkeys []string
 	if inflight > acked && inflight < len(txns) {
-		fval, flive = cstate(txns, inflight)
+		fval, flive, flen = cstateN(txns, inflight)
 		for _, o := range txns[inflight] {
 			fkeys = append(fkeys, o.k)
 		}
@@ -182,7 +223,7 @@ func VH_C03_P2() {
 			if ok && len(g) == 1 {
 				vf.ObsInt("C03.recovered."+k+".value", int(g[0]))
 			}
-			isOld := (ok == live[k]) && (!ok || (len(g) == 1 && g[0] == val[k]))
+			isOld := (ok == live[k]) && (!ok || cmatch(g, val[k], vlen[k]))
 			isNew := false
 			inFlightKey := false
 			for _, fk := range fkeys {
@@ -191,7 +232,7 @@ func VH_C03_P2() {
 				}
 			}
 			if inFlightKey {
-				isNew = (ok == flive[k]) && (!ok || (len(g) == 1 && g[0] == fval[k]))
+				isNew = (ok == flive[k]) && (!ok || cmatch(g, fval[k], flen[k]))
 			}
 			// a commit made by an earlier recovery phase (crash during recovery) may be visible
 			isPost := k == keys[0] && (postAcked || postInflight) && ok && len(g) == 1 && g[0] == cpostValue
@@ -234,7 +275,7 @@ func VH_C03_P2() {
 				if later {
 					continue
 				}
-				has := (found[o.k] == !o.del) && (o.del || (len(got[o.k]) == 1 && got[o.k][0] == o.v))
+				has := (found[o.k] == !o.del) && (o.del || cmatch(got[o.k], o.v, o.n))
 				if has {
 					seen++
 				} else {
